@@ -1,6 +1,7 @@
 """C09  The same text means the same graphs in every container and stream framing."""
 import io
 import os
+import pathlib
 
 from hypothesis import strategies as st
 
@@ -61,6 +62,15 @@ def _build_text(case, m):
         s = penman.format(t, indent=case['indent'], compact=case['compact'])
         for raw in gspec.get('rawcomments', []):
             s = raw + '\n' + s
+        if case.get('gap') and s.startswith('#'):
+            # a blank (or blanks-only) line after the k-th comment line: inside the comment block or between it and the graph
+            ls = s.split('\n')
+            nc = 0
+            while nc < len(ls) and ls[nc].startswith('#'):
+                nc += 1
+            at = 1 + (case['gap'][0] % nc)
+            ls[at:at] = [case['gap'][1]]
+            s = '\n'.join(ls)
         parts.append(s.replace('\n', term))
         expected.append(t)
     text = sep.join(parts)
@@ -118,6 +128,7 @@ def check(case):
         with open(path, encoding='utf-8') as fh:
             return penman.load(fh, model=m)
 
+    lines_before, klines_before = list(lines), list(klines)
     containers = [
         ('str', lambda: penman.loads(text, model=m)),
         ('iterdecode-str', lambda: list(penman.iterdecode(text, model=m))),
@@ -126,11 +137,14 @@ def check(case):
         ('StringIO', lambda: penman.load(io.StringIO(text, newline=None), model=m)),
         ('filename', lambda: penman.load(path, model=m, encoding='utf-8')),
         ('fileobj', via_fileobj),
+        ('Path', lambda: penman.load(pathlib.Path(path), model=m, encoding='utf-8')),
     ]
     if len(case['graphs']) * (case.get('repeat') or 1) == 1 and not case.get('bom'):
         containers.append(('decode', lambda: [penman.decode(text, model=m)]))
         containers.append(('codec.decode', lambda: [penman.PENMANCodec(model=m).decode(text)]))
     outs = [(name, _outcome(fn)) for name, fn in containers]
+    if lines != lines_before or klines != klines_before:
+        f.append(('container-mutated', '%s: the list of lines handed to iterdecode was changed' % short(text, 200)))
     base = outs[0]
     for name, o in outs[1:]:
         if o != base[1]:
@@ -164,6 +178,24 @@ def check(case):
         back = _outcome(lambda: penman.load(p2, model=m, encoding='utf-8'))
         if back != ('ok', want):
             f.append(('dump-load-file', '%s -> %s' % (short(open(p2, encoding='utf-8', newline='').read(), 200), short(back, 300))))
+        # a pathlib.Path target and a non-default encoding, the same on both sides
+        enc = case.get('enc') or 'utf-8'
+        try:
+            s.encode(enc)
+        except UnicodeEncodeError:
+            enc = 'utf-8'
+        p3 = pathlib.Path(d) / 'out3.txt'
+        penman.dump(gs, p3, model=m, indent=case['indent'], compact=case['compact'], encoding=enc)
+        back = _outcome(lambda: penman.load(p3, model=m, encoding=enc))
+        if back != ('ok', want):
+            f.append(('dump-load-path', 'encoding=%s: %s -> %s' % (enc, short(s, 200), short(back, 300))))
+        p4 = os.path.join(d, 'out4.txt')
+        codec = penman.PENMANCodec(model=m)
+        with open(p4, 'w', encoding=enc) as fh:
+            penman.dump(gs, fh, model=m, indent=case['indent'], compact=case['compact'])
+        back = _outcome(lambda: penman.load(p4, model=m, encoding=enc))
+        if back != ('ok', want):
+            f.append(('dump-fileobj-load-name', 'encoding=%s: %s -> %s' % (enc, short(s, 200), short(back, 300))))
         buf = io.StringIO()
         penman.dump(gs, buf, model=m, indent=case['indent'], compact=case['compact'])
         back = _outcome(lambda: penman.loads(buf.getvalue(), model=m))
@@ -190,6 +222,8 @@ def classes(case):
     if any(g.get('meta') for g in case['graphs']): out.append('metadata')
     if _special_meta(case): out.append('metadata:special-chars')
     if any(g.get('rawcomments') for g in case['graphs']): out.append('raw-comment-lines')
+    if case.get('gap') and any(g.get('meta') or g.get('rawcomments') for g in case['graphs']): out.append('blank-line-inside-or-after-comment-block')
+    if case.get('enc'): out.append('file-encoding:' + case['enc'])
     if any(v == '' for g in case['graphs'] for v in (g.get('meta') or {}).values()): out.append('metadata:empty-value')
     return out
 
@@ -211,7 +245,9 @@ def _cases(draw):
     return {'graphs': gs, 'model': spec, 'term': draw(st.sampled_from(['LF', 'CRLF', 'CR'])),
             'sep': draw(st.sampled_from(['blank', 'newline', 'space', 'none'])),
             'indent': draw(st.sampled_from([-1, None, 0, 2, 5])), 'compact': draw(st.booleans()),
-            'final_newline': draw(st.booleans()), 'bom': draw(st.integers(0, 11)) == 0}
+            'final_newline': draw(st.booleans()), 'bom': draw(st.integers(0, 11)) == 0,
+            'gap': [draw(st.integers(0, 5)), draw(st.sampled_from(['', '', ' ', '\t ']))] if draw(st.integers(0, 3)) == 0 else None,
+            'enc': draw(st.sampled_from(['utf-8', 'latin-1', 'utf-16', 'cp1252', 'utf-8-sig', 'utf-32']))}
 
 
 def _huge_chunks(tier):
